@@ -25,7 +25,7 @@ def _record(res: UnitResult, pid: str, name: str, params: Any, c: D.Ctl, mode: s
     res.count("clock_advances", c.clock_advances)
     for site, n in c.switch_sites.items():
         res.note("preemption_sites", "%s:%s" % site if isinstance(site, tuple) else str(site))
-    replay = {"scenario": name, "params": params, "decisions": list(c.decisions)}
+    replay = {"scenario": name, "params": params, "decisions": list(c.decisions), "dsched": True}
     if getattr(c, "leaked", 0):
         res.count("leaked_threads", c.leaked)
     if getattr(c, "watchdog", False):
